@@ -1,7 +1,7 @@
 """Which properties are claimed in MANIFEST.json, with the words that go there."""
 TB = ("Trusted: Coq kernel (coqc, full .vo), no axioms (Print Assumptions = closed for every theorem); the hand-written model "
       "is tied to the code by the correspondence check (harness + extracted model on the same cases), so assurance is "
-      "bounded by that check's generators, and - for 43 functions: the loop-free integer/decision kernel and the pointer-level iterator state machines of iter_mut.rs - by the rs2v translator "
+      "bounded by that check's generators, and - for 52 functions: the loop-free integer/decision kernel and the pointer-level iterator state machines of iter_mut.rs - by the rs2v translator "
       "(regenerated from the source on every run, each proved equal to the model's kernel function; translator trusted); "
       "extraction with ExtrOcamlBasic; std/Vec/ptr semantics are modelled, not verified.")
 CLAIMED = {
@@ -95,7 +95,7 @@ CLAIMED.update({
             "PARTIAL w.r.t. drop accounting. Proved: every operation of the ~90-operation history machine (constructors, conversions, every macro arm, order/shape changes, swaps, overwrite, maps, elementwise/scalar/product "
             "families, all iterators, parallel helpers) keeps every matrix coherent (major*minor = stored elements within usize/isize bounds), hence every reachable state of any history is coherent; "
             "in a coherent matrix every in-bounds (row,col) resolves to its own distinct live element. The machine is run operation by operation against the crate on random histories over the whole public "
-            "alphabet with four element types, with an independent coherence probe and a drop/clone ledger inside the harness.",
+            "alphabet with four element types (heap-owning symbolic, 24-byte plain, two zero-sized), with an independent coherence probe and a drop/clone ledger inside the harness.",
             TB + " Drop/clone accounting is observed (ledger: live elements = sum of sizes after every operation, no double drop, nothing live at the end), not proved; "
             "stated for every element size incl. zero-sized types (es >= 0); for zero-sized types inputs with more than usize::MAX elements in total are excluded (Vec::extend panics there, which the model does not reproduce).", "DESIGN §7 C01"),
 })
@@ -113,7 +113,7 @@ CLAIMED.update({
             "arithmetic) for every element size incl. zero and every alignment. Proved for every layout satisfying the two matrix layouts' arithmetic and EVERY finite program of next/next_back calls on the "
             "outer iterator and all inner iterators kept alive: no UB and no panic, each position handed out at most once, exactly once when exhausted, at the address base + index*size of its element "
             "(zero-sized: a counter in 1..=len, never null or wrapped), len() exact at every step. Proving the counters never overflow exposed finding F4 (fixed in /repo; old constructor refuted by witness). "
-            "Correspondence: nested scripts on all shapes <= 4x4, both orders/axes, four element types, exhaustive short scripts, pointer events range-checked via verif-hooks, "
+            "Correspondence: nested scripts on all shapes <= 4x4, both orders/axes, five element types (40, 24, 1, 0, 0 bytes; with and without drop glue), exhaustive short scripts, pointer events range-checked via verif-hooks, "
             "and zero-sized matrices with up to usize::MAX elements of alignment 1..8 run against the extracted pointer-level model.",
             TB + " Provenance and aliasing are represented by addresses and allocation bounds only.", "DESIGN §7 C03"),
 })
